@@ -15,7 +15,12 @@ import (
 // ---- PRNG (SplitMix64): every random choice derives from one seed ----
 type Rng struct{ s uint64 }
 
-func NewRng(seed uint64) *Rng { return &Rng{s: seed*0x9E3779B97F4A7C15 + 0x1234567} }
+func NewRng(seed uint64) *Rng {
+	// the seed goes through the mixer first so that consecutive seeds give unrelated streams
+	r := &Rng{s: seed ^ 0x5DEECE66D1234567}
+	r.s = r.U64() ^ (seed * 0xD6E8FEB86659FD93)
+	return r
+}
 func (r *Rng) U64() uint64 {
 	r.s += 0x9E3779B97F4A7C15
 	z := r.s
@@ -38,6 +43,38 @@ func Pick[T any](r *Rng, xs []T) T      { return xs[r.Intn(len(xs))] }
 // ---- Coq printing helpers ----
 func H(b []byte) string  { return "\"" + hex.EncodeToString(b) + "\"" }
 func HS(s string) string { return H([]byte(s)) }
+
+// RL prints a byte string in run-length form [("hex", n); ...] (long runs of one byte are folded;
+// Coq's parser cannot take string literals of hundreds of kilobytes).
+func RL(b []byte) string {
+	var parts []string
+	lit := func(x []byte) {
+		for len(x) > 0 {
+			k := len(x)
+			if k > 2000 {
+				k = 2000
+			}
+			parts = append(parts, fmt.Sprintf("(%s,1)", H(x[:k])))
+			x = x[k:]
+		}
+	}
+	start := 0
+	i := 0
+	for i < len(b) {
+		j := i
+		for j < len(b) && b[j] == b[i] {
+			j++
+		}
+		if j-i >= 64 {
+			lit(b[start:i])
+			parts = append(parts, fmt.Sprintf("(%s,%d)", H(b[i:i+1]), j-i))
+			start = j
+		}
+		i = j
+	}
+	lit(b[start:])
+	return "[" + strings.Join(parts, ";") + "]"
+}
 func HL(xs [][]byte) string {
 	parts := make([]string, len(xs))
 	for i, x := range xs {
